@@ -1,6 +1,7 @@
 """C12 — error skipping drops only failing elements; otherwise the first error surfaces."""
 from __future__ import annotations
 
+import collections.abc
 import copy
 import gc
 import json
@@ -304,6 +305,27 @@ class FailingSeq:
     return self.data[i]
 
 
+class FailingAbcSeq(FailingSeq, collections.abc.Sequence):
+  """The same failing source as a registered collections.abc.Sequence."""
+
+
+class FailingList(list):
+  """A list subclass whose reads go through an overridden __getitem__ (fails at given positions)."""
+
+  def __init__(self, data, bad, exc, no_slice=False):
+    super().__init__(data)
+    self._inner = FailingSeq(data, bad, exc, no_slice)
+
+  def __getitem__(self, i):
+    return self._inner[i]
+
+  def __iter__(self):
+    return (self[i] for i in range(len(self)))
+
+
+SEQ_KINDS = {'duck': FailingSeq, 'abc': FailingAbcSeq, 'list_subclass': FailingList}
+
+
 def _not_multiple_of_5(x):
   return x % 5 != 0
 
@@ -319,14 +341,16 @@ def run_source(case):
   op = case.get('op', 'apply')
   what += f' source.ignore_error={src_skip} op={op}'
   recs = lambda a, b: [{'a': v} for v in range(a, b)]
+  Seq = SEQ_KINDS[case.get('seq_kind', 'duck')]
+  what += f' source kind={case.get("seq_kind", "duck")}'
   if case.get('splits'):
     # several sequences merged into one source; every sequence has its own failing positions (global numbering)
     cuts = [0] + sorted(min(c, n) for c in case['splits']) + [n]
-    seqs = [FailingSeq(recs(a, b), [p - a for p in bad if a <= p < b], exc, no_slice) for a, b in zip(cuts, cuts[1:])]
+    seqs = [Seq(recs(a, b), [p - a for p in bad if a <= p < b], exc, no_slice) for a, b in zip(cuts, cuts[1:])]
     src = io.SequenceDataSource.from_sequences(seqs, ignore_error=src_skip)
     plain = io.SequenceDataSource.from_sequences([list(range(a, b)) for a, b in zip(cuts, cuts[1:])])
   else:
-    src = io.SequenceDataSource(FailingSeq(recs(0, n), bad, exc, no_slice), ignore_error=src_skip)
+    src = io.SequenceDataSource(Seq(recs(0, n), bad, exc, no_slice), ignore_error=src_skip)
     plain = io.SequenceDataSource(list(range(n)))
   if case['shard']:
     i, k = case['shard']
@@ -388,6 +412,13 @@ def strat_source(tier):
     if n and draw(st.integers(0, 3)) == 0:
       case['splits'] = draw(st.lists(st.integers(0, n), min_size=1, max_size=3))
     case['op'] = draw(st.sampled_from(['apply', 'assign', 'filter', 'sink']))
+    case['seq_kind'] = draw(st.sampled_from(['duck', 'duck', 'abc', 'list_subclass']))
+    if draw(st.integers(0, 9)) == 0:
+      # a long run of consecutive failing reads (longer than 2**7) inside a long source
+      case['n'] = 300
+      a = draw(st.integers(0, 100))
+      case['bad'] = list(range(a, a + draw(st.sampled_from([127, 128, 129, 150]))))
+      case.pop('splits', None)
     case['src_skip'] = draw(st.sampled_from([case['skip'], case['skip'], not case['skip']]))
     return case
   return s()
